@@ -64,7 +64,7 @@ func hopByHopHeaders(respHeader http.Header) map[string]struct{} {
 		"Connection":        {},
 		"Proxy-Connection":  {},
 		"Keep-Alive":        {},
-		"TE":                {},
+		"Te":                {}, // (the canonical form of "TE" as a header map key)
 		"Transfer-Encoding": {},
 		"Upgrade":           {},
 		// RFC 9111 §3.1 proxy headers
@@ -74,7 +74,8 @@ func hopByHopHeaders(respHeader http.Header) map[string]struct{} {
 		// Also see net/http/response.go "respExcludeHeader" for additional excluded headers.
 	}
 	// Fields listed in the Connection header field
-	for field := range TrimmedCSVCanonicalSeq(respHeader.Get("Connection")) {
+	// (several field lines form one list, RFC 9110 §5.3)
+	for field := range TrimmedCSVCanonicalSeq(strings.Join(respHeader.Values("Connection"), ",")) {
 		m[field] = struct{}{}
 	}
 	return m
